@@ -431,41 +431,22 @@ theorem fixed_ephemeral_draws_nothing (S : Suite) (hs : HS) (p : Bytes) (cap : N
     exact (writeToks_rng_fixed S cap (curToks hs) (w0 hs) hf).2
   · rw [t1 hr]; rfl
 
-/-! ## What is *not* proved here: the history-level statement
+/-! ## The history-level statements
 
-The full property, over every history of one endpoint (DESIGN.md `C06_endpoint`), reads:
-
-  theorem C06_endpoint (S : Suite) (hs0 : HS) (reach : Reach hs0) (ops : List C07.Op) :
-      let log := (events of all calls of `C07.run S hs0 ops`, failed calls included, in order,
-                  followed by the events of any `TOp` history on `TS.ofHandshake`)
-      ∀ i < j, log[i]? = some (.enc k n a p) → log[j]? = some (.enc k n a' p') →
-        (a, p) = (a', p') ∨ KdfCoincidence
-
-and `C06_session` is the same for the merged log of both endpoints. These are NOT proved. What
-this file proves are its components: the per-cipher discipline (1), the per-call reduction (2),
-the three facts that make a failed write harmless (3 a, b, c: nothing but `s` fields was encrypted,
-the cipher's key and nonce are restored, the retry re-encrypts identical data under the identical
-(key, nonce)), reads never encrypt, the unconditional transport statement (4), and freshness of
-ephemerals (5). Missing for the history-level theorem:
-
-  * a ghost log for `read_message` (installation markers for the tokens of a read; its events are
-    `dec` only, `hs_read_no_enc`) and the composition of the per-call `Discipline`s along a history;
-    a failed call ends with a `restore`, i.e. a re-installation of an *old* key with an *old* nonce,
-    which the composition has to discharge with (3 c) instead of treating it as an installation;
-  * (3 c) compares a failed write with a retry that draws the *same* random blocks (or draws none).
-    A retry that draws a fresh ephemeral re-derives the keys of that message from different DH
-    outputs; to say "different derivation, or same data" the installation markers have to carry
-    their HKDF inputs `(ck, ikm)`, and the witness has to include a DH-output coincidence (for an
-    abstract suite `dh e1 re = dh e2 re` with `e1 ≠ e2` is possible, e.g. a low-order `re`), in
-    which case the same key is legitimately re-derived and the `s` field is encrypted under the same
-    (key, nonce 0) with a different handshake hash as associated data;
-  * a side condition on the pattern, true of all 38 base rows of `Generated.Pattern` (checked by
-    evaluation while writing this, not part of this file) but not of arbitrary `msgs`: in
-    non-psk mode an `e` token written while a key is installed must be followed by an installing
-    token before the next `s` token or the payload. Otherwise (message `e, s` in a keyed state) a
-    failed write and its retry with a fresh ephemeral encrypt `s` under the same (key, nonce) with
-    different associated data, even in the repaired code. This has to be a `decide` over all
-    constructors of `Generated.Pattern`.
+The property over every history of one endpoint, and merged over both endpoints, is proved in
+`Theorems/C06Hist.lean` (`history_no_reuse`, `history_no_reuse_built(_total)`,
+`history_no_reuse_without_reinstall`, `endpoint_no_reuse`, `chain_no_reuse`,
+`transport_cross_no_reuse`) and `Lemmas/C06HistExchFull.lean` (`exchange_no_reuse`,
+`built_exchange_no_reuse`), on top of the components of this file: the per-cipher discipline (1),
+the per-call reduction (2), the three facts that make a failed write harmless (3 a, b, c), reads
+never encrypt, the transport statement (4) and freshness of ephemerals (5); plus a ghost log for
+`read_message`, the table fact that no encryption follows an `e` token before the next key
+installation (`instance_enc_after_e`), and restore markers.
+One residual case is real and recorded as known finding KF3: a retry that draws a fresh ephemeral
+re-derives the same key when the DH output does not depend on it (`dh e1 re = dh e2 re`, e.g. a
+low-order X25519 point sent by the peer); the `s` field is then encrypted under the same
+(key, nonce 0) with a different handshake hash. In the theorems this is the "KDF installation of
+that very key" disjunct.
 -/
 
 /-! ## 6. Non-vacuity: concrete runs on the toy suite -/
